@@ -412,7 +412,17 @@ func avBreak(r *Rng, p *avPlan) {
 		ins(at, "-n")
 		p.refused = "unknown-shorthand"
 	case 5:
-		if a[0] == "endorse" {
+		// a bare Bool flag in front of the command word takes the command word for its value and cobra finds no
+		// command — unless a LATER word happens to be a command name (the generator's positional words include
+		// "endorse"), in which case cobra resolves to that one and the argv is accepted: not this break then
+		laterCmd := false
+		for _, w := range a[1:] {
+			switch w {
+			case "endorse", "bootstrap", "rotate", "wipeout", "help", "completion":
+				laterCmd = true
+			}
+		}
+		if a[0] == "endorse" && !laterCmd {
 			ins(0, "--dry_run")
 			p.refused = "bare-bool-before-command"
 		} else {
